@@ -154,13 +154,18 @@ def judge(prop, tier, seed, rep, extra_cov=None):
     os.makedirs(os.path.join(OUTDIR, "replay"), exist_ok=True)
     for site, cnt in sorted(rep.get("violation_counts", {}).items()):
         vs = by_site.get(site, [])
+        if site.startswith("harness.") or site.startswith("oracle."):
+            # the machinery failed its own self-check: broken check, never a violation of the property
+            log("HARNESS-ERROR: self-check %s failed (%d): %s" % (site, cnt, vs[0] if vs else ""))
+            status = 2
+            continue
         k = match_known(known, prop, site, [v["input"] for v in vs])
         if k:
             print("KNOWN-FINDING: property=%s site=%s %s (%d failing cases this run; first: %s)" %
                   (prop, site, k["what"], cnt, vs[0]["input"] if vs else "?"))
             continue
         nviol += 1
-        status = 1
+        status = 1 if status != 2 else 2
         rp = os.path.join(OUTDIR, "replay", "%s-%s.json" % (prop, re.sub(r"[^A-Za-z0-9_.-]+", "_", site)[:80]))
         json.dump({"property": prop, "site": site, "count": cnt, "tier": tier, "cases": vs,
                    "replay_cmd": "python3 tools/check.py %s %s --replay %s" % (prop, tier, rp)}, open(rp, "w"), indent=1)
@@ -169,7 +174,7 @@ def judge(prop, tier, seed, rep, extra_cov=None):
               (prop, rp, site, cnt, v0.get("input"), v0.get("expected"), v0.get("got")))
     if rep.get("empty_classes") and rep.get("exhaustive") and not rep.get("partial_ok"):
         log("HARNESS-ERROR: vacuous outcome classes:", rep["empty_classes"])
-        status = max(status, 2) if status != 1 else 1
+        status = 2
     ev = write_evidence(prop, tier, seed, rep, extra_cov, nviol)
     log("evidence ->", ev, "| exhaustive:", rep.get("exhaustive"), "| wall %.1fs" % rep.get("wall_s", 0))
     return status
